@@ -15,7 +15,7 @@ LARGE_CAPS = [4, 5, 8, 10, 255, 256, 300]
 
 RULE = ('case = capacity L x initial content of the object and of a second object x list of operations '
         '(mode A: any argument values). Exhaustive part: L in 1..2 (quick) / 1..3 (thorough), every content over '
-        '{a,b} of length 0..L, every public operation (87 entry points) with every position/count argument in '
+        '{a,b} of length 0..L, every modelled operation (89 entry points) with every position/count argument in '
         '0..L+2 and {2^64-1, 2^64-2, 2^63} (third/fourth numeric arguments from a reduced set), source strings of '
         'length 0..L+2; each operation is applied to a freshly constructed object (ctor step in front of it); '
         'thorough adds all two-step mutator histories on L=1..2 (stale bytes behind the terminator). Random part: '
@@ -31,7 +31,8 @@ TRUSTED_BASE = [
     'C++ harness harness/c10_*.cpp: objects in malloc blocks of exactly sizeof(FixedString<L>), padding bytes '
     'pattern-checked, C string arguments in exact-size heap blocks, g++ 12 -O1 ASan+UBSan; std::string arguments '
     'shorter than 16 characters live in the SSO buffer where an over-read is only seen through the result',
-    'operations covered by the correspondence check only (no theorem yet): see the list in CLAIM/note',
+    'length type: FsModel.lenmod (thresholds 256 / 65536 / 2^32) written by hand from length_type.hpp (no translator); '
+    'exercised by the harness at L = 255, 256, 300 only',
 ]
 ASSUMPTIONS = [
     'pointers passed in are non-null and point to valid C strings; for (pointer, count) overloads that read count '
@@ -152,6 +153,12 @@ def all_ops(L, mode, olen):
     for p in range(0, olen + 2):
         for q in range(0, olen + 2):
             mut.append('app_it:%d:%d' % (p, q))
+    # iterator stepping
+    for nm in ('it', 'rit'):
+        for pos in P:
+            obs += ['%s:%s:inc:0' % (nm, nstr(pos)), '%s:%s:dec:0' % (nm, nstr(pos))]
+            for v in P:
+                obs += ['%s:%s:add:%s' % (nm, nstr(pos), nstr(v)), '%s:%s:sub:%s' % (nm, nstr(pos), nstr(v))]
     # find family
     for fam in FAMS:
         for pos in P:
@@ -207,6 +214,8 @@ CORPUS_A = [
     'A 10 616263 - rep_nc:1:1:n:61',
     'A 10 616263 - ins_ss:1:6162:5:1',
     'A 10 61626364 - substr:2:18446744073709551614',
+    'A 10 616263 - it:3:dec:0',
+    'A 10 616263 - rit:3:inc:0',
 ]
 CORPUS_D = [
     'D 10 6162 6163 ne eq',
@@ -220,6 +229,7 @@ CORPUS_D = [
     'D 10 616263 - app_ss:78797a:1:n',
     'D 255 - - sprintf:' + '61' * 260,
     'D 10 - - sprintf:' + '61' * 12,
+    'D 10 616263 - it:3:dec:0 it:3:sub:2 rit:3:dec:0 rit:3:sub:1',
 ]
 
 
@@ -304,7 +314,7 @@ def rnd_op(rng, L, mode, olen):
     s = lambda: hx(rnd_text(rng, min(rnd_len(rng, L), 620)))
     ss = lambda: hx(rnd_text(rng, rng.range(0, 5)))
     ch = lambda: rng.choice(['61', '62', '63'])
-    k = rng.below(60)
+    k = rng.below(62)
     table = [
         lambda: 'asg_c:' + s(), lambda: 'asg_s:' + s(), lambda: 'asg_fs', lambda: 'ctor_c:' + s(), lambda: 'ctor_mv',
         lambda: 'ins_nc:%s:%s:%s' % (p(), sc(), ch()), lambda: 'ins_c:%s:%s' % (p(), s()), lambda: 'ins_s:%s:%s' % (p(), s()),
@@ -325,6 +335,8 @@ def rnd_op(rng, L, mode, olen):
         lambda: 'F%s_s:%s:%s' % (rng.choice(FAMS), ss(), p()), lambda: 'F%s_ch:%s:%s' % (rng.choice(FAMS), ch(), p()),
         lambda: 'F%s_fs:%s' % (rng.choice(FAMS), p()), lambda: 'F%s_c:%s:%s' % (rng.choice(FAMS), ss(), p()),
         lambda: 'erase_itr:%s:%s' % (p(), p()), lambda: 'app_it:%d:%d' % (0, rng.range(0, olen)),
+        lambda: '%s:%s:%s:%s' % (rng.choice(['it', 'rit']), p(), rng.choice(['inc', 'dec', 'add', 'sub']), c()),
+        lambda: '%s:%s:%s:%s' % (rng.choice(['it', 'rit']), p(), rng.choice(['inc', 'dec']), '0'),
     ]
     return table[k % len(table)]()
 
@@ -454,3 +466,25 @@ def shrink(case):
             h2 = list(head)
             h2[j] = head[j][:-2]
             yield ' '.join(h2 + ops)
+
+
+CLAIM = {
+    'text': 'Coq theorems (Properties_C10.v) over an executable model of FixedString<L>: for every capacity 1 <= L < 2^64-1, '
+            'every pair of well-formed objects, every one of the 89 modelled entry points (all mutators and observers incl. the '
+            '30 find overloads, both traversal directions and single iterator steps) and all size_t argument values - positions and counts up to '
+            '2^64-1 - the operation returns normally, no access leaves the object, its source arguments or the destination of '
+            'copy(), and the object is well-formed afterwards (L+1 bytes, length <= L, terminator at the length, '
+            'strlen = length when no NUL is stored); the same along any history (induction). The model is tied to the code by a '
+            'correspondence check (exhaustive for L <= 2/3, ASan+UBSan build, byte-exact heap placement of the objects). Eight '
+            'defects of the pinned tree were found by the check and are repaired by fixes/C10-1..7 and C11-3 (witnesses kept as '
+            'C10_*_pinned_refuted theorems and as corpus cases).',
+    'note': 'trusted: Coq kernel, extraction (ExtrOcamlBasic), the hand-written model (validated by correspondence on every '
+            'run), the harness. Not modelled (neither proved nor run): operator[] / operator- / relational operators of the '
+            'iterator classes, postfix ++/--, insert(const_iterator, initializer_list), the six iterator overloads of replace(), '
+            'operator+= / operator= overloads that only forward to append()/assign(), operator<<, data(), operator[] '
+            '(documented as unchecked); template overloads taking FixedString<S> are run with S = L only. The caller contract '
+            '(ASSUMPTIONS) is part of the statement.',
+    'technique': 'Coq proof (invariant preservation and absence of Fault for checked buffer primitives, 2^64 wrap-around '
+                 'arithmetic, induction over histories); model/implementation correspondence with exhaustive small scopes',
+    'design_ref': 'DESIGN.md section 5, C10/C11; section 8 rows 1-6',
+}
